@@ -63,13 +63,15 @@ def run(ctx):
         tour_total += total
     # 3. code -> spec: flush-heavy random sessions, with fid probes after quiescence (CancelLeavesNothing)
     runs = [dict(nreq=6, cases=120 if q else 1200, op=False), dict(nreq=6, cases=120 if q else 1200, op=True)]
+    # one long delay per case: a request's goroutine stays parked at one action (every hook in turn) while the session goes on
+    runs += [dict(nreq=4, cases=360 if q else 3600, op=False, hold=True), dict(nreq=4, cases=360 if q else 3600, op=True, hold=True)]
     if not q:
         runs += [dict(nreq=14, cases=400, op=False), dict(nreq=14, cases=400, op=True)]
     for i, rr in enumerate(runs):
         cr = srvfam.consts(ctx, NReq=rr["nreq"], Tags=set(range(1, rr["nreq"] + 1)), Fids={1, 2, 3}, HasFlushOp=rr["op"],
                            Kinds={"Attach", "Stat", "Clunk", "Walk", "Flush"}, Extra=False, Late=True, InitFids={1})
         rc = {"cases": rr["cases"], "nreq": rr["nreq"], "kinds": ["Attach", "Stat", "Clunk", "Walk", "Flush", "Flush", "Flush"],
-              "shared": False, "close": False, "extra": False, "latep": 20, "sendp": 40, "probe": True}
+              "shared": False, "close": False, "extra": False, "latep": 20, "sendp": 40, "probe": True, "hold": rr.get("hold", False)}
         tag = "frand%d" % i
         rrep, tpath, epath, bpath = srvfam.random_run(ctx, cr, rc, tag, 300000 + 20000 * i)
         rj, tl = srvfam.run_trace_validation(ctx, tpath, cr, name="Srv9PTrace:" + tag)
